@@ -140,7 +140,12 @@ SESSION_RULE = ("stimuli = every (reachable joint negotiation state, frontend ca
 
 
 def run_C02(ctx):
-    viol = session_run(ctx)
+    if ctx.replay is not None and ctx.replay["engine"] == "client":
+        viol = client_run(ctx, want_mutations=False)
+    else:
+        # the real pair, and the real Frontend against an independent peer that acknowledges by the protocol's rules (a call that
+        # returns without awaiting the acknowledgement it asked for leaves that answer unread: seen by the peer stage at once)
+        viol = session_run(ctx) + (client_run(ctx, want_mutations=False) if ctx.replay is None else [])
     return ctx.finish("model_checking", SESSION_RULE, ASSUME_COMMON + [
         "eventfd descriptors cannot be told apart by fstat; their identity is not compared (memfd-backed files are)",
         "'nothing on the wire' is observed through the fe.sent hook here and byte-exactly by the client engine (C07/C06 checks)"], viol)
